@@ -222,6 +222,49 @@ func (h *SH) Sub(ctx context.Context, tok int, n int) (<-chan int, error) {
 	return out, nil
 }
 
+// Rich is a stream element with storage of its own (slice, map, optional pointer): values that share or
+// reuse storage across elements show up as elements that change after they were delivered.
+type Rich struct {
+	ID   int            `json:"id"`
+	Tags []int          `json:"tags,omitempty"`
+	M    map[string]int `json:"m,omitempty"`
+	P    *int           `json:"p,omitempty"`
+}
+
+// RichOf is the i-th element of the stream of token tok.
+func RichOf(tok, i int) Rich {
+	r := Rich{ID: tok*1000000 + i}
+	for k := 0; k < i%5; k++ {
+		r.Tags = append(r.Tags, i*10+k)
+	}
+	if i%3 != 0 {
+		r.M = map[string]int{fmt.Sprintf("k%d", i%7): i}
+	}
+	if i%4 == 1 {
+		v := i
+		r.P = &v
+	}
+	return r
+}
+
+// SubRich streams n elements of a non-scalar type.
+func (h *SH) SubRich(ctx context.Context, tok int, n int) (<-chan Rich, error) {
+	h.C.enter(ctx, "SubRich", tok)
+	out := make(chan Rich)
+	go func() {
+		defer close(out)
+		defer h.C.exit(tok, "stream-end")
+		for i := 0; i < n; i++ {
+			select {
+			case out <- RichOf(tok, i):
+			case <-ctx.Done():
+				return
+			}
+		}
+	}()
+	return out, nil
+}
+
 // SubSlow is Sub whose handler is still setting the subscription up (blocked like Block) when the
 // caller may cancel: the channel is returned only after the release.
 func (h *SH) SubSlow(ctx context.Context, tok int, n int) (<-chan int, error) {
@@ -289,6 +332,7 @@ type CL struct {
 	Note          func(int)                               `notify:"true"`
 	Sub           func(context.Context, int, int) (<-chan int, error)
 	SubSlow       func(context.Context, int, int) (<-chan int, error)
+	SubRich       func(context.Context, int, int) (<-chan Rich, error)
 	CallBack      func(context.Context, int) (int, error)
 	BlockBig      func(context.Context, int, int) (string, error)
 	NoteBlock     func(int) `notify:"true"`
